@@ -1,6 +1,7 @@
 package harness
 
 import (
+	"syscall"
 	"bytes"
 	"crypto/sha1"
 	"encoding/hex"
@@ -297,4 +298,66 @@ func bodyFromSeed(seed uint64, token string, n int) []byte {
 		out = out[:n]
 	}
 	return out
+}
+
+// ---- disk error injection ----
+
+// fsFault describes one injected disk fault: starting Delta mutating
+// file-system steps after it is armed, Len consecutive steps fail without
+// taking effect - with ENOSPC (only steps that need space: mkdir, create,
+// write) or with EIO (any step).
+type fsFault struct {
+	On     bool
+	Delta  int
+	Len    int
+	NoSpc  bool
+	Target int // which operation of the case it is armed in (meaning is the harness's)
+}
+
+func (f fsFault) String() string {
+	if !f.On {
+		return "no disk fault"
+	}
+	e := "EIO"
+	if f.NoSpc {
+		e = "ENOSPC"
+	}
+	return fmt.Sprintf("disk fault %s for %d step(s), %d steps into operation %d", e, f.Len, f.Delta, f.Target)
+}
+
+func genFSFault(w *simrt.Choices, nTargets int) fsFault {
+	if nTargets <= 0 || w.Choose(2) != 0 {
+		return fsFault{}
+	}
+	return fsFault{On: true, Delta: w.Choose(14), Len: []int{1, 1, 1, 2, 4, 30}[w.Choose(6)], NoSpc: w.Choose(2) == 0, Target: w.Choose(nTargets)}
+}
+
+// arm installs the fault on the simulated disk of this run; the returned
+// function removes it again and reports how many steps it made fail.
+func (f fsFault) arm(s *simrt.Sim) (disarm func() int) {
+	fsys := simfs.Installed(s)
+	if !f.On || fsys == nil {
+		return func() int { return 0 }
+	}
+	before := fsys.Fired
+	fsys.FailAt, fsys.FailLen = fsys.Steps+1+f.Delta, f.Len
+	if f.NoSpc {
+		fsys.FailErr = syscall.ENOSPC
+		fsys.FailKinds = func(kind string) bool { return kind == "mkdir" || kind == "create" || kind == "truncate" || kind == "write" }
+	} else {
+		fsys.FailErr = syscall.EIO
+		fsys.FailKinds = nil
+	}
+	return func() int {
+		fsys.FailAt, fsys.FailLen, fsys.FailKinds = 0, 0, nil
+		return fsys.Fired - before
+	}
+}
+
+// fsFired reports how many steps of this run's disk have failed by injection so far.
+func fsFired(s *simrt.Sim) int {
+	if fsys := simfs.Installed(s); fsys != nil {
+		return fsys.Fired
+	}
+	return 0
 }
